@@ -12,6 +12,7 @@ _FAMILIES = {
     "ckpt": ["C17"],
     "resync": ["C06"],
     "bisync": ["C14", "C18"],
+    "loop": ["C13"],
 }
 
 REGISTRY = {}
